@@ -341,6 +341,40 @@ example : Ordinary (clean (homePrefix ++ ['a', 'p', 'p'])) ∧ Ordinary (clean [
     Ordinary (clean ['/', 'v', '/', 'l', '/', 'x']) := by
   refine ⟨⟨?_, ?_, ?_, ?_⟩, ⟨?_, ?_, ?_, ?_⟩, ⟨?_, ?_, ?_, ?_⟩⟩ <;> decide
 
+/-- **home_created (parents)**: everything else the creating iteration adds to the graph is a
+root-owned directory of mode `dir|0755` (the missing parents); only the home itself is 0700. -/
+theorem home_parents (c : Cfg) (hc : c.posix = false) (fs fs1 : FS) (u : User) (hw : WF fs)
+    (hdev : u.home ≠ devNull) (habs : (step c fs (.stat (clean u.home))).2 = .err .notExist)
+    (ho : Ordinary (clean u.home)) (h : homeStep c fs u = (fs1, none)) :
+    ∃ i, getNode c fs1 (clean u.home) = .ok i ∧
+      ∀ j, fs.nodes.length ≤ j → j < fs1.nodes.length → j ≠ i →
+        (fs1.node j).dir = true ∧ (fs1.node j).mode = modeDir ||| 0o755 ∧ (fs1.node j).uid = 0 ∧ (fs1.node j).gid = 0 := by
+  unfold homeStep at h
+  simp only [hdev, if_false, habs] at h
+  obtain ⟨fsA, h1, h'⟩ := andThen_ok (liftE_ok h)
+  obtain ⟨fsB, h2, h3⟩ := andThen_ok h'
+  have e1 : fsA = (mkdirAll c fs (dir (clean u.home)) homeParentPerm).1 := by
+    simp only [act, step, Prod.mk.injEq] at h1; exact h1.1.symm
+  have hiA : FS.Inv fsA := by rw [e1]; exact mkdirAll_inv c fs _ _ hw.1
+  have hbA : DirBit fsA := by rw [e1]; exact mkdirAll_dirBit c fs _ _ hw.1 hw.2
+  have hnew : NewDirs fs.nodes.length (modeDir ||| 0o755) fsA := by rw [e1]; exact mkdirAll_new c fs _ _ hw.1
+  obtain ⟨hres, _, _, hlenB⟩ := mkdir_then_resolve hc hiA hbA h2 ho.1 ⟨ho.2.1, ho.2.2.1, ho.2.2.2⟩ (by decide)
+  obtain ⟨pi, _, hbit, hfree, hB⟩ := mkdir_ok h2
+  have efB : EF fsA fsB := by rw [hB]; exact ef_create hiA pi _ _ (hbA pi hbit) hfree
+  obtain ⟨k, hgk, rfl⟩ := chown_ok h3
+  rw [hres] at hgk; cases hgk
+  have hsh : ShapeEq fsB (fsB.modify fsA.nodes.length fun n => { n with uid := (u.uid : Int), gid := (u.gid : Int) }) :=
+    ShapeEq.modify fsB _ _ (by intro n; rfl) (by intro n; rfl) rfl (by intro n; rfl)
+  refine ⟨fsA.nodes.length, by rw [getNode_shape hsh]; exact hres, ?_⟩
+  intro j h1 h2 hne
+  simp only [length_modify] at h2
+  have hjA : j < fsA.nodes.length := by omega
+  rw [node_modify]
+  simp only [hne, false_and, if_false]
+  have fr := efB.frame j hjA
+  have := hnew.h j h1 hjA
+  exact ⟨fr.2.2.2.trans this.1, fr.1.trans this.2.1, fr.2.1.trans this.2.2.1, fr.2.2.1.trans this.2.2.2⟩
+
 /-! ## path mutations -/
 
 /-- `mutatePaths` is the left fold of the loop body over the list, stopping at the first error:
